@@ -160,7 +160,7 @@ func c12Forms(sc *c07Schema) []c12Form {
 	}
 }
 
-var c12Positions = []string{"select-item", "select-item-unaliased", "function-argument", "array-element", "case-branch", "case-else", "case-condition", "in-list", "where",
+var c12Positions = []string{"select-item", "select-item-unaliased", "function-argument", "array-element", "case-in-array-element", "case-in-function-argument", "case-branch", "case-else", "case-condition", "in-list", "where",
 	"subquery-select-list", "grouped-select-list", "having", "joined-select-list", "cte-select-list", "derived-select-list", "order-by-key", "distinct-item", "union-branch", "star-plus-item", "nested-from-select-item", "distinct-order-tie", "distinct-order-hidden"}
 
 func c12Col(form string, prefix string) string {
@@ -233,6 +233,10 @@ func c12Render(doc map[string]any, sc *c07Schema, f c12Form, pos string, where s
 		c.SQL = fmt.Sprintf("SELECT %s, vf_id(%s) AS e FROM t%s", k, e, where)
 	case "array-element":
 		c.SQL = fmt.Sprintf("SELECT ARRAY(%s, %s) AS e FROM t%s", k, e, where)
+	case "case-in-array-element":
+		c.SQL = fmt.Sprintf("SELECT ARRAY(%s, CASE WHEN %s > 1 THEN %s ELSE %s END) AS e FROM t%s", k, k, e, s, where)
+	case "case-in-function-argument":
+		c.SQL = fmt.Sprintf("SELECT %s, CONCAT(%s, CASE WHEN %s > 1 THEN %s ELSE 'small' END) AS e FROM t%s", k, s, k, e, where)
 	case "case-branch":
 		c.SQL = fmt.Sprintf("SELECT %s, CASE WHEN %s > 1 THEN %s ELSE NULL END AS e FROM t%s", k, k, e, where)
 	case "case-else":
@@ -387,7 +391,7 @@ func init() {
 		Title: "Results are plain self-contained data and evaluation is deterministic",
 		Rule: "rapid draws a document and (2/3) one of 70 expression forms (columns, bracket and continued selectors over per-row arrays of different lengths, literals of every kind, arithmetic, unary, comparisons, IN, BETWEEN, LIKE, " +
 			"IS, NOT, AND/OR, CASE with and without ELSE, built-in and user function calls, nested calls, subqueries, ASYNC / ONCE / SPIN / SPINASYNC " +
-			"calls, SETVAR/GETVAR, FUSE, CONSTANT, 14 built-ins with NULL / missing arguments) placed in one of 22 positions (select item aliased/unaliased, function argument, array element, " +
+			"calls, SETVAR/GETVAR, FUSE, CONSTANT, 14 built-ins with NULL / missing arguments) placed in one of 24 positions (select item aliased/unaliased, function argument, array element, " +
 			"CASE branch/else/condition, IN list, WHERE, subquery select list, grouped select list, HAVING, joined select list, CTE and derived-table " +
 			"select lists, ORDER BY key, DISTINCT item, UNION branch, star plus item, select item of a multi-dimensional FROM) or (1/4) one of the 47 wide constructs, or (1/10) the form mixed-kinds: GROUP BY / DISTINCT / IN-subquery / JOIN / HASH_JOIN / UNION / correlated equality over a column whose values mix kinds and Go types (text vs number, int vs float64 vs float32, -0, 1e6), re-executed 24 times. Oracle on every " +
 			"successful result: reflective walk (only maps with string keys, slices, strings, Go numeric kinds, bools, nil; no type declared by " +
